@@ -654,9 +654,11 @@ def execute(run, props):
                               f"{label} differs from the requested stack followed by the writer: {got[1][:200]!r} vs {want[1][:200]!r}")
                             return res
                         res.nontrivial = True
-                    if [id(b) for b in lib.blocks] != held_before:
-                        # no middleware of this universe may change WHICH blocks the caller's library holds (a block
-                        # middleware's results go into a new library; in-place only ever means the blocks themselves)
+                    inplace_block_mw = any(d.get("ip") and d["k"] in ("tagb", "drop", "boom", "shipped", "again")
+                                           for part in (a["full"], a["add"]) if part for d in part)
+                    if [id(b) for b in lib.blocks] != held_before and not inplace_block_mw:
+                        # with every middleware of the stack in copy mode, nothing may change WHICH blocks the caller's
+                        # library holds (an in-place block middleware, by its documentation, may change the library directly)
                         V("composition", "write_string/callers-block-list-changed", step,
                           f"{label} changed which blocks the caller's library holds: {len(held_before)} -> {len(lib.blocks)} blocks")
                         return res
@@ -760,7 +762,7 @@ def execute(run, props):
                 # "writes exactly the text": the statement fixes neither the encoding nor the newline policy of a
                 # path target, so besides what builtins.open(path, "w") does today (locale encoding, platform
                 # newline) the untranslated text and UTF-8 (parse_file's documented default) are accepted too
-                accept = set()
+                accept = {b""} if text == "" else set()     # an empty text may also be "written" by writing nothing at all
                 for e_ in (cfg["locale"], "utf-8"):
                     for nl_ in (cfg["platform_newline"], "\n"):
                         try:
